@@ -1109,7 +1109,7 @@ func (ev *Evaluator) callAction(e grl.Expr, eff *Effect) error {
 					return nil
 				}
 				return evalErr("SetI: bad arguments")
-			case "Act":
+			case "Act", "Hook":
 				return nil
 			}
 		}
@@ -1348,6 +1348,9 @@ func builtin(name string, args []Val) (Val, error) {
 			}
 		}
 	case "Max", "Min":
+		if len(args) == 0 {
+			return FloatV(0), nil // the Go functions are variadic: no value at all yields 0
+		}
 		if len(args) > 0 {
 			best := args[0].AsFloat()
 			for _, a := range args {
